@@ -442,6 +442,7 @@ func (its *document) toDocument(child jsonType) Document {
 		SnapshotDatatype: datatypes.NewSnapshotDatatype(its.BaseDatatype, child),
 	}
 }
+
 // isNilValue tells whether any of the values is nil or a nil pointer, which no JSON type can hold.
 func isNilValue(values ...interface{}) bool {
 	for _, v := range values {
